@@ -76,6 +76,20 @@ Definition all_hold (c : N -> Z) (st : store) (F : list fact) : Prop := forall g
 Definition base (b : option Z) : Z := match b with None => 0 | Some id => A id end.
 Definition aden (l : memloc) (k : Z) : Prop := exists j, den l (ml_alloca l) j /\ k = base (ml_alloca l) + j.
 
+Lemma comm_pure : forall op, is_in op COMM_OPS = true -> shape_of op = sh_pure.
+Proof.
+  intros op H. unfold is_in, COMM_OPS in H. cbn [existsb] in H.
+  repeat (apply orb_true_iff in H; destruct H as [H|H]; [apply seqb_eq in H; subst op; reflexivity|]). discriminate.
+Qed.
+
+Lemma out1_comm : forall op a b st, is_in op COMM_OPS = true -> out1 op [a; b] st = out1 op [b; a] st.
+Proof.
+  intros op a b st H. unfold out1. rewrite (ex_comm X A asz HE op a b _ _ H).
+  assert (V : store_eq (view (shape_of op) [a; b] st) (view (shape_of op) [b; a] st)).
+  { rewrite (comm_pure op H). intros s k. reflexivity. }
+  destruct (HX op [b; a] 0 _ _ V) as [Ho _]. rewrite Ho. reflexivity.
+Qed.
+
 (* ------------------------------------------------------------------ resolved addresses *)
 Lemma find_def_in : forall F x op a, find_def F x = Some (op, a) -> In (FEq (OVar x) op a) F.
 Proof.
@@ -259,8 +273,13 @@ Proof.
       apply andb_true_iff in H. destruct H as [H1 H2]. apply seqb_eq in H1. subst op'.
       apply find_def_in in Da. apply find_def_in in Db.
       destruct (HF _ Da) as [_ Ha]. destruct (HF _ Db) as [_ Hb].
-      rewrite <- Ha, <- Hb. f_equal.
-      eapply list_eqb_vals; [|exact H2]. intros a b _ E. eapply IHn; eassumption.
+      rewrite <- Ha, <- Hb.
+      assert (Hl : forall l l', list_eqb (equiv n F asz) l l' = true -> map (oval c) l = map (oval c) l').
+      { intros l l' Hl. eapply list_eqb_vals; [|exact Hl]. intros a b _ E. eapply IHn; eassumption. }
+      apply orb_true_iff in H2. destruct H2 as [H2|H2].
+      * rewrite (Hl _ _ H2). reflexivity.
+      * apply andb_true_iff in H2. destruct H2 as [Hc H2]. destruct aa as [|x0 [|y0 [|? ?]]]; try discriminate.
+        rewrite <- (Hl _ _ H2). cbn [map]. apply out1_comm. exact Hc.
 Qed.
 
 Lemma eqv_sound : forall F c st a b, all_hold c st F -> eqv F asz a b = true -> oval c a = oval c b.
@@ -618,8 +637,13 @@ Proof.
   destruct g as [w op' a' | |]; try discriminate.
   apply andb_true_iff in H. destruct H as [H H3]. apply andb_true_iff in H. destruct H as [H1 H2].
   apply seqb_eq in H1. subst op'. destruct (HF _ Hg) as [_ Hv].
-  rewrite <- (eqv_sound F c st w v HF H3). rewrite <- Hv. f_equal. symmetry.
-  eapply list_eqb_vals; [|exact H2]. intros a b _ E. eapply eqv_sound; eassumption.
+  rewrite <- (eqv_sound F c st w v HF H3). rewrite <- Hv.
+  assert (Hl : forall l, list_eqb (eqv F asz) a' l = true -> map (oval c) a' = map (oval c) l).
+  { intros l Hl. eapply list_eqb_vals; [|exact Hl]. intros a b _ E. eapply eqv_sound; eassumption. }
+  apply orb_true_iff in H2. destruct H2 as [H2|H2].
+  - rewrite (Hl _ H2). reflexivity.
+  - apply andb_true_iff in H2. destruct H2 as [Hc H2]. destruct args as [|x [|y [|? ?]]]; try discriminate.
+    rewrite (Hl _ H2). cbn [map]. apply out1_comm. exact Hc.
 Qed.
 
 Lemma justified_sound : forall F i i' c c1, all_hold (cv c) (cs c) F -> wf_store (cs c) -> ceq P0 c c1 ->
